@@ -48,6 +48,7 @@ def literal_alternatives(sub):
 
 
 GROUP_LITERALS = {}
+GROUP_DIGITS = {}       # pattern -> {gid/name: n} for groups that are exactly \\d{n}
 GROUP_NESTING = {}      # pattern -> {gid/name: [(ancestor gid/name, minimum number of characters of the ancestor outside it)]}
 
 
@@ -79,6 +80,13 @@ def group_info(pattern):
                     walk(sub, optional)
                     stack.pop()
                     info[gid] = optional
+                    items_ = list(sub)
+                    if len(items_) == 1 and str(items_[0][0]) in ('MAX_REPEAT',) and items_[0][1][0] == items_[0][1][1]:
+                        inner_ = list(items_[0][1][2])
+                        if len(inner_) == 1 and str(inner_[0][0]) == 'IN' and [str(x[0]) + str(x[1]) for x in inner_[0][1]] == ['CATEGORYCATEGORY_DIGIT']:
+                            GROUP_DIGITS.setdefault(pattern, {})[gid] = items_[0][1][0]
+                            if gid in names:
+                                GROUP_DIGITS[pattern][names[gid]] = items_[0][1][0]
                     alts = literal_alternatives(sub)
                     if alts is not None:
                         lits[gid] = alts
@@ -89,6 +97,13 @@ def group_info(pattern):
                     continue
                 if False:
                     info[gid] = optional
+                    items_ = list(sub)
+                    if len(items_) == 1 and str(items_[0][0]) in ('MAX_REPEAT',) and items_[0][1][0] == items_[0][1][1]:
+                        inner_ = list(items_[0][1][2])
+                        if len(inner_) == 1 and str(inner_[0][0]) == 'IN' and [str(x[0]) + str(x[1]) for x in inner_[0][1]] == ['CATEGORYCATEGORY_DIGIT']:
+                            GROUP_DIGITS.setdefault(pattern, {})[gid] = items_[0][1][0]
+                            if gid in names:
+                                GROUP_DIGITS[pattern][names[gid]] = items_[0][1][0]
                     alts = literal_alternatives(sub)
                     if alts is not None:
                         lits[gid] = alts
@@ -199,6 +214,12 @@ def match_group(ip, m, idx):
     if val is None:
         g = ctx.fresh(f'grp_{key}', Str)
         ctx.assume(z3.Length(g) <= z3.Length(subj))
+        nd = GROUP_DIGITS.get(m.f['regex'].f['pattern'], {}).get(key)
+        if nd is not None:
+            # derived from the pattern tree: exactly nd ASCII-or-Unicode decimal digits, which int() accepts
+            from .models_calls import PARSE_INT_OK, PARSE_INT
+            ctx.assume(z3.And(z3.Length(g) == nd, PARSE_INT_OK(g, z3.IntVal(10)), PARSE_INT(g, z3.IntVal(10)) >= 0,
+                              PARSE_INT(g, z3.IntVal(10)) < 10 ** nd))
         alts = GROUP_LITERALS.get(m.f['regex'].f['pattern'], {}).get(key)
         if alts is not None:
             # derived from the pattern tree: the group is an alternation of literals
